@@ -1233,6 +1233,18 @@ package anytype
 //@   panics_iff false
 //@   ensures  result == (len(s) >= len(prefix) && (forall k int :: 0 <= k && k < len(prefix) ==> s[k] == prefix[k]))
 
+//@ extern strings.IndexAny pure
+//@   assigns  nothing
+//@   panics_iff false
+//@   ensures  range: -1 <= result && result <= len(s) - 1
+//@   ensures  found: result >= 0 && len(chars) == 2 && chars[0] < 128 && chars[1] < 128 ==> (s[result] == chars[0] || s[result] == chars[1])
+//@   ensures  first: len(chars) == 2 && chars[0] < 128 && chars[1] < 128 ==> (forall k int :: 0 <= k && k < len(s) && (result < 0 || k < result) ==> s[k] != chars[0] && s[k] != chars[1])
+
+//@ extern strings.HasSuffix pure
+//@   assigns  nothing
+//@   panics_iff false
+//@   ensures  result == (len(s) >= len(suffix) && (forall k int :: 0 <= k && k < len(suffix) ==> s[len(s) - len(suffix) + k] == suffix[k]))
+
 //@ extern strings.Count pure
 //@   assigns  nothing
 //@   panics_iff false
